@@ -167,7 +167,7 @@ PROPS.update({
                 {"name": "asan", "variant": "asan"},
                 {"name": "chk", "variant": "chk"},
                 {"name": "rel", "variant": "rel"},
-                {"name": "valgrind", "variant": "rel", "only": "gather,maxima,score_u8,stripe_reuse_v,score,scan,sample,stripe_histories,dense,encode_v,stripe_v"},
+                {"name": "valgrind", "variant": "rel", "only": "gather,maxima,score_u8,stripe_reuse_v,score_exact,score,scan,sample,stripe_histories,dense,encode_v,stripe_v"},
             ],
         },
         "wall": {"quick": 200, "thorough": 3000},
